@@ -56,6 +56,11 @@ package based
 //@   ensures [scan-persisted] err == nil && val(s.Id) == val(req.Id) ==> put.count == 1
 //@   ensures [scan-after-push] push ==> put && rwh && val(put.arg3) == decBytes(ite(rwh.arg3 + 1 >= 18446744073709551616, 0, rwh.arg3 + 1))   # the height whose remainder was queued is the one fetched last
 //@   ensures [no-overtake] pop && len(pop.arg0.list) > 0 ==> rwh.count == 0
+// the carry-over queue is a queue: this function takes from its head (PopUpToMaxBytes) and adds at its tail
+// (Push) and changes it in no other way - what was fetched later never gets in front of what is waiting
+//@   ensures [queue-only-popped-and-pushed] pop && push.count == 0 ==> s.pendingTxs.list == pop.arg0out.list
+//@   loop 1 invariant [queue-untouched-so-far] pop && s.pendingTxs.list == pop.arg0out.list
+//@   loop 2 invariant [queue-untouched-so-far] pop && s.pendingTxs.list == pop.arg0out.list
 //@   loop 1 invariant [size] size <= maxBytes && resp != nil && resp.Batch != nil && len(resp.Batch.Transactions) == len(resp.BatchData)
 //@                       && size == sumLen(resp.Batch.Transactions, len(resp.Batch.Transactions)) && push.count == 0
 // where the scan resumes: never before the stored scan position (what lies before it was fetched
